@@ -1,10 +1,12 @@
 use crate::Args;
 
 pub mod c14;
+pub mod c15;
 
 pub fn run(args: &Args) -> i32 {
     match args.prop.as_str() {
         "C14" => c14::run(args),
+        "C15" => c15::run(args),
         other => {
             eprintln!("no driver for property {other}");
             2
